@@ -29,6 +29,8 @@ facade's initial state `init regP regK`.  History-level vocabulary (defined in P
                                 the property's histories; replayed on the real code);
 * `active_spec`, `selfact_irrelevant`  the updaters' own `active` flag: what it is after a
                                 history, and that no delivery decision depends on it;
+* `userop_irrelevant`           user-initiated operations (set_volume …) touch no listener state:
+                                notifications follow the device's reports only;
 * `devices_independent`         several device objects in one process: each device's listeners
                                 receive exactly what that device's own events produce;
 * `chg_chain`                   volume / output-device / focus notifications (old,new) form a
@@ -280,6 +282,18 @@ theorem selfact_irrelevant (regP regK : List Proto) (evs : List Ev) :
     (run (init regP regK) evs).1.forget = (run (init regP regK) (dropSelfact evs)).1.forget :=
   run_dropSelfact evs (init regP regK)
 
+/-! ## User-initiated operations -/
+
+/-- **C10, the listeners follow the device's reports, not the user's requests.**  A
+    user-initiated operation relayed by the facade (set_volume, volume_up/down, set/add/
+    remove_output_devices, text_*) anywhere in a history changes neither the state nor what
+    any listener receives: notifications, and their old/new values, are determined by the
+    reported values alone — whether or not the device applied what was requested. -/
+theorem userop_irrelevant (regP regK : List Proto) (pre rest : List Ev) :
+    run (init regP regK) (pre ++ .userop :: rest) = run (init regP regK) (pre ++ rest) := by
+  rw [run_append, run_append]
+  simp [run, step]
+
 /-! ## Several device objects alive in one process -/
 
 /-- **C10, devices are independent.**  With any number of device objects in one process and
@@ -324,6 +338,10 @@ example : (run (init [0, 4] []) [.start, .selfact 4 false]).1.act 4 = false ∧
 example : (runTagged (fun _ => init [0] [0]) [(0, .change .vol 0 1), (1, .change .vol 0 2), (1, .drain),
     (0, .drain), (1, .change .vol 0 1), (0, .change .vol 0 1), (0, .drain), (1, .drain)] 0).2
     = [.chg .vol 0 1] := by decide
+
+-- device at 1; user requests something else; device reports 1 again: no notification
+example : chgs .vol (run (init [0] [0]) (drained [.change .vol 0 1, .userop, .change .vol 0 1,
+    .change .vol 0 2])).2 = [(0, 1), (1, 2)] := by decide
 
 example : lastPost 0 [.start, .post 0 1, .drain] = some 1 := by decide
 
